@@ -6,7 +6,8 @@ EXPLANATION = ("Decides structural clauses of C02, not the behaviour: on every C
                "set = RFC set), the issuer identity match, the key/signature version alignment, and (for subkey bindings) the "
                "back-signature requirement have been evaluated with a rejecting edge; every Ok exit passes through the primitive; "
                "forwarding impls of VerifyingKey are pure. Not decided: that flipping any bit changes the digest (cryptography), "
-               "text-mode equivalence.")
+               "text-mode equivalence."
+               ' Also (shared with C11/C16): sign/verify twins feed the same frame sequence, every hashed subpacket is fed, v6 salt sizes come from one table and every consumer checks them (a hash without salt size is refused), the cleartext framework signs and verifies one derived form with trim set {SP, TAB}; the version-alignment guard is applied to the key that verifies.')
 ASSUMPTIONS = ["VerifyingKey::verify of PubKeyInner and the digest crates are correct",
                "origin analysis is flow-insensitive (cannot reject a correct guard)"]
 
